@@ -1,6 +1,10 @@
 package main
 
-import "time"
+import (
+	"encoding/json"
+	"net"
+	"time"
+)
 
 type exotic struct {
 	name string
@@ -36,6 +40,17 @@ func exoticParams() []exotic {
 		{"nested", nested{nil, nil, []withUnexported{{1, "y"}}}}, {"defined-int", myInt(3)}, {"chan", make(chan int)}, {"func", func() {}},
 		{"complex", complex(1, 2)}, {"slice-of-chan", []chan int{make(chan int)}}, {"map-of-func", map[string]func(){"f": func() {}}},
 		{"deep", []interface{}{[]interface{}{[]interface{}{map[string]interface{}{"k": []int{1}}}}}},
-		{"empty-struct", struct{}{}}, {"time-pointer", func() *time.Time { t := time.Unix(1, 0); return &t }()},
+		{"empty-struct", struct{}{}},
+		{"byte-array", [4]byte{1, 2, 3, 4}}, {"empty-byte-array", [0]byte{}}, {"uint16-array", [2]uint16{1, 2}},
+		{"struct-with-byte-array", struct{ ID [4]byte }{[4]byte{9, 9, 9, 9}}}, {"slice-of-byte-array", []interface{}{[2]byte{1, 2}}},
+		{"map-of-byte-array", map[string][3]byte{"k": {1, 2, 3}}}, {"pointer-byte-array", &[4]byte{1, 2, 3, 4}}, {"nested-byte-array", [2][2]byte{{1, 2}, {3, 4}}},
+		{"raw-message", json.RawMessage(`{"a":1}`)}, {"net-ip", net.IPv4(127, 0, 0, 1)}, {"duration", time.Second}, {"array-of-struct", [1]withUnexported{{1, "z"}}},
+		{"slice-of-pointers", []*int{nil}}, {"map-of-nil-interface", map[string]interface{}{"n": nil}}, {"interface-slice-of-typed-nil", []interface{}{(*int)(nil), (map[string]int)(nil), ([]byte)(nil)}},
+		{"bool-key-map", map[bool]int{true: 1}}, {"float-key-map", map[float64]int{1.5: 1}}, {"struct-key-map", map[struct{ A int }]int{{1}: 1}},
+		{"rune", 'x'}, {"byte", byte(7)}, {"error-value", errForParam{}}, {"stringer", net.IPMask{255, 0, 0, 0}}, {"time-pointer", func() *time.Time { t := time.Unix(1, 0); return &t }()},
 	}
 }
+
+type errForParam struct{}
+
+func (errForParam) Error() string { return "e" }
